@@ -3255,10 +3255,9 @@ impl RelationalEngine {
                 });
             }
 
-            // Index gives us row IDs - take only what we need
-            let limited_ids: Vec<u64> = row_ids.into_iter().take(target_count).collect();
-
-            let indices: Vec<usize> = limited_ids
+            // The index yields candidates in index order and they still have to pass the
+            // re-check below, so they cannot be cut to `offset + limit` before that.
+            let indices: Vec<usize> = row_ids
                 .iter()
                 .filter_map(|id| usize::try_from(id.saturating_sub(1)).ok())
                 .collect();
